@@ -1,4 +1,4 @@
-import WfModel.PolicyTree
+import WfModel.RpTree
 import Driver.Policy
 /-! Line protocol for the nested part of the retry-policy model (C07): trees of combinators of any depth,
 constructors with omitted arguments (`-` = take the default regenerated from the source), the function-style
@@ -12,7 +12,7 @@ policy constructors, Python's `sum()` over strategies, and the documented interv
 -/
 open Policy Drv.Engine Drv.Policy
 
-namespace Drv.PolicyTree
+namespace Drv.RpTree
 
 def orat : P (Option Rat) := fun ts =>
   match ts with
@@ -53,7 +53,7 @@ def wtreeF : Nat → P WTree
     | _ => fun _ => none
 def wtree : P WTree := fun ts => wtreeF (ts.length + 1) ts
 
-def streeF : Nat → P STree
+def streeF : Nat → P RSTree
   | 0 => fun _ => none
   | f + 1 => do
     match ← tok with
@@ -61,9 +61,9 @@ def streeF : Nat → P STree
     | "A" => do let ls ← counted (streeF f); pure (.any ls)
     | "B" => do let ls ← counted (streeF f); pure (.all ls)
     | _ => fun _ => none
-def stree : P STree := fun ts => streeF (ts.length + 1) ts
+def stree : P RSTree := fun ts => streeF (ts.length + 1) ts
 
-def ctreeF : Nat → P CTree
+def ctreeF : Nat → P RCTree
   | 0 => fun _ => none
   | f + 1 => do
     match ← tok with
@@ -71,7 +71,7 @@ def ctreeF : Nat → P CTree
     | "A" => do let ls ← counted (ctreeF f); pure (.any ls)
     | "B" => do let ls ← counted (ctreeF f); pure (.all ls)
     | _ => fun _ => none
-def ctree : P CTree := fun ts => ctreeF (ts.length + 1) ts
+def ctree : P RCTree := fun ts => ctreeF (ts.length + 1) ts
 
 def optTree (none_ some_ : String) (p : P α) : P (Option α) := fun ts =>
   match ts with
@@ -125,4 +125,4 @@ def step (_ : Unit) (line : String) : Unit × String :=
     | _ => ((), "bad-op")
   | _ => ((), "bad-op")
 
-end Drv.PolicyTree
+end Drv.RpTree
